@@ -309,6 +309,17 @@ Definition so_step (prop : Z) (ns : nat) (snaps : list (list ssnap)) (o : so) (r
                 (* an ADD that failed hands back everything it took: the pod owns what it held before *)
                 fold_left (fun acc p => so_req acc (existsb (fun x => (p_pod x =? p) && negb (p_rej x)) (o_rpcs acc) || same_addrs (owned_in ss p) (holds p)) 406) (o_failed o) o
               else o in
+            let a :=
+              if prop =? 9 then
+                (* collecting a pod releases its allocation: nothing stays owned without a record or a request in flight *)
+                fold_left (fun acc x =>
+                  let chk (f : Z) (es : list (list Z)) :=
+                    forallb (fun e => (ent_owner e =? 0) || existsb (fun y => p_pod y =? ent_owner e) (o_rpcs acc) ||
+                       match sget (ent_owner e) (o_store acc) with
+                       | Some rc => (k_eni rc =? x_eni x) && (if f =? 4 then k_a4 rc =? ent_addr e else k_a6 rc =? ent_addr e)
+                       | None => false end) es in
+                  so_req acc (chk 4 (x_4 x) && chk 6 (x_6 x)) 903) ss a
+              else a in
             if (prop =? 5) && o_restarted o then
               (* after a restart: every acknowledged allocation is still owned by its pod, and nothing is owned
                  without a record that lists it *)
